@@ -5,6 +5,7 @@ What is translated (no import, no execution: `ast` only):
   config.Service.matches_offer / matches_find / matches_subscribe / matches_service  (whole bodies)
   sd._SessionStorage.check_received   (the reboot condition inside the try block)
   sd._SessionStorage.assign_outgoing  (wrap test, both successor tuples, the defaultdict's initial value)
+  sd.ServiceDiscoveryProtocol.message_received  (the test that drops everything that is not an SD notification)
   service.SimpleService.message_received  (the chain of checks in front of the handler call with the return code each
                                            sends, the code for a malformed message, the positive-reply condition)
 
@@ -69,8 +70,26 @@ class Tr:
             raise Unsupported(f"helper {name} is not a single return expression")
         if self.depth > 4:
             raise Unsupported("helper nesting")
-        bound = {p: self.atom(a) for p, a in zip(params, node.args)}
         saved = self.env
+        bound = {}
+        for prm, arg in zip(params, node.args):
+            path = None
+            if isinstance(arg, (ast.Name, ast.Attribute)):
+                try:
+                    path = _dotted(arg)
+                except Unsupported:
+                    path = None
+            if path is not None and path not in saved:
+                # an object handed on (e.g. the message): the parameter becomes an alias for its attribute paths
+                hit = False
+                for k, v in saved.items():
+                    if k.startswith(path + "."):
+                        bound[prm + k[len(path):]] = v
+                        hit = True
+                if not hit:
+                    raise Unsupported(f"name {path}")
+            else:
+                bound[prm] = self.atom(arg)
         self.env = {**{k: v for k, v in saved.items() if "." in k}, **bound}   # module-level dotted names stay visible
         self.depth += 1
         try:
@@ -478,6 +497,42 @@ def gen_svc(tree):
     return pre, malcode, pos
 
 
+def gen_sd_filter(tree):
+    """ServiceDiscoveryProtocol.message_received: the test that drops everything that is not an SD notification (the first
+    statement: `if <cond>: log; return`).  Result: Bool, true = dropped."""
+    fn = _method(tree, "ServiceDiscoveryProtocol", "message_received")
+    a = _args(fn)
+    if len(a) != 4:
+        raise Unsupported("signature")
+    msg = a[1]
+    env = {f"{msg}.service_id": ("h.sid", "nat"), f"{msg}.method_id": ("h.mid", "nat"), f"{msg}.interface_version": ("h.iv", "nat"),
+           f"{msg}.message_type": ("h.mt", "mty"), f"{msg}.return_code": ("h.rc", "rc")}
+    for pre in ("someip.header.", "header.", ""):
+        env[f"{pre}SD_SERVICE"] = ("SD_SERVICE", "nat")
+        env[f"{pre}SD_METHOD"] = ("SD_METHOD", "nat")
+        env[f"{pre}SD_INTERFACE_VERSION"] = ("SD_INTERFACE_VERSION", "nat")
+        for k, v in MTY.items():
+            env[f"{pre}SOMEIPMessageType.{k}"] = (f"MsgType.{v}", "mty")
+        for k, v in RCODE.items():
+            env[f"{pre}SOMEIPReturnCode.{k}"] = (f"RetCode.{v}", "rc")
+    body = [x for x in fn.body if not _is_log(x) and not (isinstance(x, ast.Expr) and isinstance(x.value, ast.Constant))]
+    helpers = _helpers(tree, "ServiceDiscoveryProtocol")
+    tr = Tr(env, helpers)
+    if not body:
+        raise Unsupported("empty body")
+    first = body[0]
+    # `flag = <cond>` followed by `if not flag: return` (a named condition) or directly `if <cond>: ...; return`
+    if isinstance(first, ast.Assign) and len(first.targets) == 1 and isinstance(first.targets[0], ast.Name) and len(body) > 1:
+        tr.env[first.targets[0].id] = tr.atom(first.value)
+        first = body[1]
+    if not (isinstance(first, ast.If) and not first.orelse):
+        raise Unsupported("the method does not start with the non-SD test")
+    blk = [x for x in first.body if not _is_log(x)]
+    if not (len(blk) == 1 and isinstance(blk[0], ast.Return) and blk[0].value is None):
+        raise Unsupported("the non-SD branch does something else than return")
+    return tr.cond(first.test)
+
+
 ITEMS = [
     # (lean name, signature, fallback = the model's own function, generator)
     ("matchesOffer", "(s : Service) (e : SDEntry) : Except Err Bool", "s.matchesOffer e", lambda c, s: gen_matches(c, "matches_offer")),
@@ -490,6 +545,9 @@ ITEMS = [
     ("nextOutgoing", "(flag : Bool) (id : Nat) : Bool × Nat", "if id ≥ 0xFFFF then (false, 1) else (flag, id + 1)",
      lambda c, s: gen_outgoing(s)[0]),
     ("outgoingDefault", ": Bool × Nat", "(true, 1)", lambda c, s: gen_outgoing(s)[1]),
+    ("sdForeign", "(h : Header) : Bool",
+     "decide (h.sid ≠ SD_SERVICE ∨ h.mid ≠ SD_METHOD ∨ h.iv ≠ SD_INTERFACE_VERSION ∨ h.rc ≠ .ok ∨ h.mt ≠ .notification)",
+     lambda c, s: gen_sd_filter(s)),
     ("svcPrecheck", "(c : SvcCfg) (m : Header) (multicast known : Bool) : Option (Option RetCode)",
      "if multicast then none else if m.sid ≠ c.serviceId then some (some .unknownService) else if m.iv ≠ c.versionMajor then "
      "some (some .wrongInterfaceVersion) else if !known then some (some .unknownMethod) else if m.mt ≠ .request ∧ m.mt ≠ .requestNoReturn "
